@@ -49,7 +49,9 @@ impl A {
     /// a C `bool` is an 8-bit integer holding 0 or 1
     pub fn same(&self, o: &A) -> bool {
         match (self, o) {
-            (A::Enum, A::Int(32, _)) | (A::Int(32, _), A::Enum) | (A::Enum, A::Enum) => true,
+            // a C enum is a (signed) `int`: its enumerators have type int, and a negative discriminant read through an unsigned
+            // declaration comes out as 2^32 + d
+            (A::Enum, A::Int(32, true)) | (A::Int(32, true), A::Enum) | (A::Enum, A::Enum) => true,
             (A::Bool, A::Int(8, _)) | (A::Int(8, _), A::Bool) => true,
             (A::Struct(a), A::Struct(b)) | (A::Union(a), A::Union(b)) => a.len() == b.len() && a.iter().zip(b).all(|(x, y)| x.same(y)),
             (a, b) => a == b,
@@ -347,7 +349,8 @@ fn kt_leaf(t: &str) -> Option<A> {
 }
 
 pub struct KtDefs {
-    pub classes: BTreeMap<String, (bool, Vec<(String, String)>, Option<Vec<String>>)>,
+    /// name -> (union?, fields, getFieldOrder, declared `Structure.ByValue`?)
+    pub classes: BTreeMap<String, (bool, Vec<(String, String)>, Option<Vec<String>>, bool)>,
     pub funs: BTreeMap<String, (String, Vec<String>)>,
 }
 
@@ -401,7 +404,7 @@ pub fn parse_kotlin(files: &BTreeMap<String, String>) -> KtDefs {
                     j += 1;
                     if depth <= 0 || j >= lines.len() { break; }
                 }
-                classes.insert(cname, (is_union, fields, order));
+                classes.insert(cname, (is_union, fields, order, t.contains("Structure.ByValue") || t.contains("Union.ByValue")));
                 i = j;
                 continue;
             }
@@ -417,7 +420,9 @@ impl KtDefs {
         let t = if self.classes.contains_key(t) { t } else { t.trim_end_matches('?') };
         if depth > 12 { return A::Unknown(format!("too-deep:{t}")); }
         if let Some(l) = kt_leaf(t) { return l; }
-        if let Some((is_union, fields, order)) = self.classes.get(t) {
+        if let Some((is_union, fields, order, by_value)) = self.classes.get(t) {
+            // JNA passes and returns a `Structure` that is not marked `ByValue` as a pointer to it (members are inline)
+            if depth == 0 && !*by_value { return A::Ptr; }
             let fs: Vec<A> = match order {
                 Some(o) if !*is_union => o.iter().map(|n| fields.iter().find(|(f, _)| f == n).map(|(_, ty)| self.ty(ty, depth + 1)).unwrap_or(A::Unknown(format!("field:{n}")))).collect(),
                 _ => fields.iter().map(|(_, ty)| self.ty(ty, depth + 1)).collect(),
@@ -491,6 +496,11 @@ fn struct_names(m: &Module) -> Vec<String> {
 /// The comparison of this file for a hand-written bridge: every named function's native declaration in `backend`
 /// (dart / kotlin) against the C prototype, position by position.  `Ok(list of (function, position, c, binding))`.
 pub fn compare_functions(src: &str, backend: &str, abis: &[String]) -> Result<Vec<(String, String, String, String)>, String> {
+    compare_items(src, backend, abis, &[])
+}
+
+/// … and the native mirrors of the named structs against the C structs
+pub fn compare_items(src: &str, backend: &str, abis: &[String], structs: &[&str]) -> Result<Vec<(String, String, String, String)>, String> {
     let c_out = tool::run_backend(src, "c");
     let b_out = tool::run_backend(src, backend);
     if !c_out.ok() { return Err(format!("c: {}", c_out.status())); }
@@ -515,8 +525,39 @@ pub fn compare_functions(src: &str, backend: &str, abis: &[String]) -> Result<Ve
         }
         if !cr.clone().drop_empty_unions().same(&br.clone().drop_empty_unions()) { out.push((abi.clone(), "return".into(), cr.show(), br.show())); }
     }
+    for st in structs {
+        let ca = c.ty(st, 0);
+        let ba = if let Some(d) = &dart { d.ty(&format!("_{st}Ffi"), 0) } else { kt.as_ref().unwrap().ty(&format!("{st}Native"), 1) };
+        if !ca.clone().drop_empty_unions().same(&ba.clone().drop_empty_unions()) { out.push((st.to_string(), "struct".into(), ca.show(), ba.show())); }
+    }
     let _ = std::fs::remove_dir_all(&dir);
     Ok(out)
+}
+
+
+/// Enums whose discriminants are not 0..n-1 in order take other code paths in both backends (value tables instead of
+/// positions); on the wire they are still a C `int`.  The generated modules only have plain enums, so these are
+/// written out: as receiver, parameter, result, inside options / results, and as a struct field.
+fn sparse_enum_probe(rep: &mut Report) {
+    let src = "#[diplomat::bridge]\nmod ffi {\n    pub enum Status { Unknown = -1, Idle = 0, Busy = 7 }\n    pub enum Flags { Low = 1, Top = 1073741824 }\n    pub enum Level { A, B, C }\n    pub struct Report { pub status: Status, pub level: Level, pub code: u8, pub flags: Flags }\n    #[diplomat::opaque]\n    pub struct Job(u8);\n    impl Job {\n        pub fn status(&self) -> Status { Status::Idle }\n        pub fn set_status(&mut self, s: Status, f: Flags, l: Level) {}\n        pub fn known_status(&self) -> Option<Status> { None }\n        pub fn check(&self) -> Result<Level, Status> { Ok(Level::A) }\n        pub fn flags(&self) -> Result<Flags, ()> { Err(()) }\n        pub fn report(&self) -> Report { unimplemented!() }\n        pub fn take(&self, r: Report) -> u8 { 0 }\n    }\n    impl Status {\n        pub fn is_known(self) -> bool { true }\n        pub fn next(self) -> Status { self }\n    }\n}\n";
+    let abis: Vec<String> = ["Job_status", "Job_set_status", "Job_known_status", "Job_check", "Job_flags", "Job_report", "Job_take", "Status_is_known", "Status_next"].iter().map(|s| s.to_string()).collect();
+    for backend in ["dart", "kotlin"] {
+        rep.oracle_runs += 1;
+        rep.count("probe:sparse-enums");
+        // Kotlin wants error types marked as such; the result with an enum error stays a Dart-only case
+        let src = if backend == "kotlin" { src.replace("        pub fn check(&self) -> Result<Level, Status> { Ok(Level::A) }\n", "") } else { src.to_string() };
+        let abis: Vec<String> = abis.iter().filter(|a| backend != "kotlin" || *a != "Job_check").cloned().collect();
+        match compare_items(&src, backend, &abis, &["Report"]) {
+            Err(e) => rep.notes.push(format!("sparse-enum probe ({backend}): {e}")),
+            Ok(diffs) => {
+                for (item, pos, c, b) in diffs {
+                    // Kotlin's bool is the recorded finding F26; it is not what this probe is about
+                    if backend == "kotlin" && c == "bool" { continue; }
+                    rep.oracle_fail(&format!("(c07 probe sparse-enums {backend} {item})"), "a native declaration involving an enum with explicit discriminants does not match the C declaration", json!({"backend": backend, "item": item, "position": pos, "c": c, "binding": b, "source": src}));
+                }
+            }
+        }
+    }
 }
 
 pub fn main(args: &[String]) {
@@ -646,7 +687,7 @@ pub fn main(args: &[String]) {
         for s in struct_names(&m) {
             rep.oracle_runs += 1;
             let ca = c.ty(&s, 0);
-            let ba = if let Some(d) = &dart { d.ty(&format!("_{s}Ffi"), 0) } else { kt.as_ref().unwrap().ty(&format!("{s}Native"), 0) };
+            let ba = if let Some(d) = &dart { d.ty(&format!("_{s}Ffi"), 0) } else { kt.as_ref().unwrap().ty(&format!("{s}Native"), 1) };
             rep.count(&format!("{backend}:structs"));
             if !ca.clone().drop_empty_unions().same(&ba.clone().drop_empty_unions()) {
                 let fields = m.types.iter().find(|t| t.name == s).map(|t| match &t.def { crate::tygen::Def::Struct { fields, .. } => fields.iter().map(|(_, f)| f.rust()).collect::<Vec<_>>().join(", "), _ => String::new() }).unwrap_or_default();
@@ -662,5 +703,6 @@ pub fn main(args: &[String]) {
     }
     rep.extra.insert("model_prim_rows".into(), json!(model_prims));
     rep.extra.insert("observed_mismatches".into(), json!(observed_prim_mismatch));
+    sparse_enum_probe(&mut rep);
     rep.print();
 }
